@@ -45,7 +45,7 @@ def fresh(cfg):
     prob = ec.problem(cfg["problem"], t0)
     y0 = np.array(prob.y0, dtype=dtype)
     tf_cfg = (2 * t0 - tf) if cfg.get("against") else tf        # 'against': configured with the mirrored span, every integrate call names its target
-    a = de.OdeSystem(prob.f, y0=y0, t=(dtype(t0), dtype(tf_cfg)), dt=dtype(cfg["dt0"]), rtol=dtype(cfg["tol"]), atol=dtype(cfg["tol"]), dense_output=bool(cfg["dense"]))
+    a = de.OdeSystem(prob.f, y0=y0, t=(dtype(t0), dtype(tf_cfg)), dt=dtype(cfg["dt0"]), rtol=dtype(cfg["tol"]), atol=dtype(cfg["tol"]), dense_output=bool(cfg["dense"]), constants=dict(ec.CONSTS))
     a.method = lc.by_name(cfg["method"])
     return a, prob, y0, dtype
 
@@ -74,30 +74,31 @@ def apply_op(a, cfg, prob, op, dtype):
         obs["disabled"] = True        # the end of the span is not ahead any more (after an infinite-target run): continuing would be a reversal
         return obs
     try:
-        if op[0] == "ev" or op[0] == "evinf":
-            evs = [ec.make_event(dict(sp, s=cfg["s"], dir=0), prob) for sp in cfg["menu"]]
-            obs["evs"] = evs
-            if op[0] == "ev":
-                obs["target"] = tf
+        with ec.in_library():
+            if op[0] == "ev" or op[0] == "evinf":
+                evs = [ec.make_event(dict(sp, s=cfg["s"], dir=0), prob) for sp in cfg["menu"]]
+                obs["evs"] = evs
+                if op[0] == "ev":
+                    obs["target"] = tf
+                    a.integrate(dtype(tf), events=evs, callback=b)
+                else:
+                    d = 1.0 if tf > t0 else -1.0
+                    obs["target"] = d * np.inf
+                    a.integrate(dtype(d * np.inf), events=evs, callback=b)
+            elif op[0] == "ev2":
+                # a different terminal event placed 60% of the way from the current time to the end of the span
+                tau = float(a.t[-1]) + 0.6 * (tf - float(a.t[-1]))
+                evs = [ec.make_event(dict(kind="time", tau=tau, terminal=True, s=cfg["s"], dir=0), prob)]
+                obs["evs"] = evs; obs["target"] = tf
                 a.integrate(dtype(tf), events=evs, callback=b)
-            else:
-                d = 1.0 if tf > t0 else -1.0
-                obs["target"] = d * np.inf
-                a.integrate(dtype(d * np.inf), events=evs, callback=b)
-        elif op[0] == "ev2":
-            # a different terminal event placed 60% of the way from the current time to the end of the span
-            tau = float(a.t[-1]) + 0.6 * (tf - float(a.t[-1]))
-            evs = [ec.make_event(dict(kind="time", tau=tau, terminal=True, s=cfg["s"], dir=0), prob)]
-            obs["evs"] = evs; obs["target"] = tf
-            a.integrate(dtype(tf), events=evs, callback=b)
-        elif op[0] == "int":
-            obs["target"] = tf
-            a.integrate(dtype(tf), callback=b)
-        elif op[0] == "intT":
-            obs["target"] = t0 + op[1] * (tf - t0)
-            a.integrate(dtype(obs["target"]), callback=b)
-        elif op[0] == "reset":
-            a.reset()
+            elif op[0] == "int":
+                obs["target"] = tf
+                a.integrate(dtype(tf), callback=b)
+            elif op[0] == "intT":
+                obs["target"] = t0 + op[1] * (tf - t0)
+                a.integrate(dtype(obs["target"]), callback=b)
+            elif op[0] == "reset":
+                a.reset()
     except de.exception_types.FailedIntegration as e:
         obs["raised"] = "budget" if driver.budget_hit(e) else repr(e.__cause__)[:200]
     obs["i1"] = len(a) - 1
